@@ -151,7 +151,11 @@ func (r *runner) witness(extra string) map[string]any {
 	for i, o := range r.seq {
 		s[i] = o.String()
 	}
-	return map[string]any{"slots": r.n, "ops": s, "detail": extra}
+	rels := map[string]string{}
+	for k, m := range r.model {
+		rels[fmt.Sprintf("k%d", k)] = m.lastOp + " " + m.rel
+	}
+	return map[string]any{"slots": r.n, "ops": s, "detail": extra, "pending_last_rearm_geometry": rels}
 }
 
 // relation of old slot / ticked position / new slot at re-arm time
@@ -229,7 +233,7 @@ func (r *runner) tick() {
 		case seen[f.key] > 1:
 			r.c.Viol("C12/duplicate-in-tick", fmt.Sprintf("key k%d fired twice at tick %d", f.key, r.ticks), r.witness(""))
 		case m.due != r.ticks:
-			r.c.Viol(fmt.Sprintf("C12/early/%s/%s/%s", m.lastOp, revs(m.due-r.ticks, r.n), m.rel),
+			r.c.Viol(fmt.Sprintf("C12/early/%s/%s", m.lastOp, revs(m.due-r.ticks, r.n)),
 				fmt.Sprintf("key k%d fired at tick %d, due at tick %d (armed at tick %d by %s)", f.key, r.ticks, m.due, m.armedAt, m.lastOp),
 				r.witness(fmt.Sprintf("tick=%d key=%d due=%d", r.ticks, f.key, m.due)))
 			delete(r.model, f.key)
@@ -275,7 +279,7 @@ func (r *runner) flush() {
 	}
 	for k, m := range r.model {
 		if m.due < 0 {
-			r.c.Viol(fmt.Sprintf("C12/missing/%s/%s", m.lastOp, m.rel), fmt.Sprintf("key k%d was due at tick %d and never fired within two further revolutions", k, -m.due), r.witness(""))
+			r.c.Viol(fmt.Sprintf("C12/missing/%s", m.lastOp), fmt.Sprintf("key k%d was due at tick %d and never fired within two further revolutions", k, -m.due), r.witness(""))
 		} else {
 			r.c.Viol("C12/harness-flush-too-short", "internal: pending timer not yet due after flush", r.witness(""))
 		}
@@ -303,11 +307,11 @@ func (r *runner) tickLate() {
 		case seen[f.key] > 1:
 			r.c.Viol("C12/duplicate-in-tick", fmt.Sprintf("key k%d fired twice at tick %d", f.key, r.ticks), r.witness(""))
 		case m.due < 0:
-			r.c.Viol(fmt.Sprintf("C12/late/%s/%s/%s", m.lastOp, revs(r.ticks+m.due, r.n), m.rel),
+			r.c.Viol(fmt.Sprintf("C12/late/%s/%s", m.lastOp, revs(r.ticks+m.due, r.n)),
 				fmt.Sprintf("key k%d fired at tick %d, was due at tick %d (armed at tick %d by %s)", f.key, r.ticks, -m.due, m.armedAt, m.lastOp), r.witness(""))
 			delete(r.model, f.key)
 		case m.due != r.ticks:
-			r.c.Viol(fmt.Sprintf("C12/early/%s/%s/%s", m.lastOp, revs(m.due-r.ticks, r.n), m.rel),
+			r.c.Viol(fmt.Sprintf("C12/early/%s/%s", m.lastOp, revs(m.due-r.ticks, r.n)),
 				fmt.Sprintf("key k%d fired at tick %d, due at tick %d", f.key, r.ticks, m.due), r.witness(""))
 			delete(r.model, f.key)
 		default:
